@@ -20,7 +20,7 @@ def hash_groups():
     g('hash.get_bucket_raw', ['C17', 'C03'], 'h_get_bucket_raw', '__cstl_hash_get_bucket',
       what='bucket selection with an arbitrary caller hash: result inside [0,count) of the array or abort',
       covers=['end', 'abort'])
-    for n in (1, 2, 3):
+    for n in (0, 1, 2, 3):      # (0: an empty dirty bucket still gets its stamp -- seeded change C03-5)
         G.append(Group('hash.clean_bucket.chain%d' % n, ['C19', 'C03'], 'B', S, 'h_clean_bucket_b',
                        sources=['hash.c'], defines=['-DVF_G_clean_bucket_b', '-DVF_CHAIN=%d' % n], unwind=6, instances=1,
                        what='cstl_clean_bucket against its flat contract on a chain of %d nodes: stamp set, other stamps kept, frame = bucket array + the detached nodes, one hash consultation per relocated node' % n,
